@@ -47,6 +47,15 @@ type Scalars struct {
 	T   time.Time
 }
 
+// Acronyms has field names whose lower-casing is not the JavaBeans "decapitalize" of the name.
+type Acronyms struct {
+	ID       int32
+	URL      string
+	HTTPPort int32
+	X        int32
+	AB       []string
+}
+
 type Embedded struct {
 	Base
 	X int32
@@ -321,7 +330,7 @@ var Types = []T{
 	{"uint64", ty(uint64(0)), true}, {"float32", ty(float32(0)), true}, {"float64", ty(float64(0)), true}, {"string", ty(""), true}, {"bytes", ty([]byte(nil)), true},
 	{"time", ty(time.Time{}), true},
 	{"Inner", ty(Inner{}), true}, {"*Inner", ty(&Inner{}), true}, {"CustomNamed", ty(CustomNamed{}), true},
-	{"Scalars", ty(Scalars{}), false}, {"Embedded", ty(Embedded{}), true}, {"EmbeddedPtr", ty(EmbeddedPtr{}), true}, {"Nested", ty(Nested{}), true}, {"Ptrs", ty(Ptrs{}), true},
+	{"Scalars", ty(Scalars{}), false}, {"Acronyms", ty(Acronyms{}), true}, {"Embedded", ty(Embedded{}), true}, {"EmbeddedPtr", ty(EmbeddedPtr{}), true}, {"Nested", ty(Nested{}), true}, {"Ptrs", ty(Ptrs{}), true},
 	{"SlBool", ty(SlBool{}), true}, {"SlI8", ty(SlI8{}), true}, {"SlI16", ty(SlI16{}), true}, {"SlI32", ty(SlI32{}), true}, {"SlI", ty(SlI{}), true}, {"SlI64", ty(SlI64{}), true},
 	{"SlU16", ty(SlU16{}), true}, {"SlU32", ty(SlU32{}), true}, {"SlU", ty(SlU{}), true}, {"SlU64", ty(SlU64{}), true}, {"SlF32", ty(SlF32{}), true}, {"SlF64", ty(SlF64{}), true},
 	{"SlStr", ty(SlStr{}), true}, {"SlBin", ty(SlBin{}), true}, {"SlTime", ty(SlTime{}), true}, {"SlInner", ty(SlInner{}), true}, {"SlPInner", ty(SlPInner{}), true},
